@@ -464,6 +464,16 @@ class Renderer:
                 text = ''.join(c.upper() if self.r.random() < 0.5 else c for c in text)
         return text
 
+    def urlname(self):
+        """the function name of url(...): any letter case; with the 'escapes' style also written with escapes, like every identifier may be"""
+        t = self.kw('url')
+        if self.s['escapes'] and self.r.random() < 0.25:
+            i = self.r.randrange(3)
+            if self.r.random() < 0.5:
+                return t[:i] + '\\' + t[i:]  # (u, r, l are no hex digits: a simple escape)
+            return t[:i] + '\\%x ' % ord(t[i]) + t[i + 1:]
+        return t
+
     def name(self, text, first=True):
         """an identifier: characters that are not name characters are always written as hex escapes; with the
         'escapes' style ordinary name characters may be written as escapes too"""
@@ -556,7 +566,7 @@ class Renderer:
             else:
                 inner = self.string(body)
             w = self.r.choice(['', ' ']) if self.s['ws'] == 'wild' else ''
-            return self.kw('url') + '(' + w + inner + w + ')'
+            return self.urlname() + '(' + w + inner + w + ')'
         if k == 'hash':
             h = c[1]
             if self.s['case']:
@@ -740,7 +750,7 @@ class Renderer:
             return '/*' + st[1] + '*/'
         if k == 'import':
             _, href, form, media, name = st
-            h = self.string(href) if form == 'string' else self.kw('url') + '(' + self.string(href) + ')'
+            h = self.string(href) if form == 'string' else self.urlname() + '(' + self.string(href) + ')'
             out = self.kw('@import') + self.req() + h
             if media:
                 out += self.req() + self.queries(media)
@@ -750,7 +760,7 @@ class Renderer:
             out = self.kw('@namespace') + self.req()
             if prefix:
                 out += self.prefix(prefix) + self.req()
-            u = self.string(uri) if self.r.random() < 0.6 else self.kw('url') + '(' + self.string(uri) + ')'
+            u = self.string(uri) if self.r.random() < 0.6 else self.urlname() + '(' + self.string(uri) + ')'
             return out + u + self.o() + ';'
         if k == 'style':
             _, sels, items = st
